@@ -98,7 +98,7 @@ def representable(shape, mode: str) -> bool:
 
 
 # ---------------------------------------------------------------------------
-def _judge_raise(o: Dict[str, Any], code: int, shape, via: str, viol: List[dict], ctx: str) -> str:
+def _judge_raise(o: Dict[str, Any], code: int, shape, via: str, viol: List[dict], ctx: str, msg_text: Any = "__shape__") -> str:
     """Judge one driven call that must have raised the classified exception."""
     exp = expected_class(code)
 
@@ -123,7 +123,7 @@ def _judge_raise(o: Dict[str, Any], code: int, shape, via: str, viol: List[dict]
     stated = [int(x) for x in re.findall(r"code:\s*(-?\d+)", info["str"])]
     if any(x != code for x in stated):
         bad("text-states-another-code", f"str(e) = {info['str']!r} names code {stated}, server sent {code}")
-    m = MESSAGES[shape[0]][1]
+    m = MESSAGES[shape[0]][1] if msg_text == "__shape__" else msg_text
     if m is not None and m not in info["str"]:
         bad("message-not-carried", f"str(e) = {info['str']!r} lacks the server's message {m!r}")
     if o["errors"]:
@@ -316,6 +316,54 @@ def _run_baseline(cfg) -> Dict[str, Any]:
     return {"outcome": out, "violations": [], "counters": {"baseline_calls": 1}, "helper": hd.short(name)}
 
 
+# Messages that mention the protocol version.  send_initialize documents ONE translation: an
+# INVALID_PARAMS (-32602) error with such a text becomes VersionMismatchError.  For every other code the
+# error must surface as the classified exception like anywhere else - also when the text is the
+# library's own default description of a message-less error (-32008: "Protocol version mismatch").
+PV_MESSAGES = ["Unsupported protocol version: 2025-06-18", "PROTOCOL VERSION mismatch", "bad Protocol Version",
+               "server says: protocol version not supported"]
+
+
+def _run_initpv(cfg) -> Dict[str, Any]:
+    name = cfg["helper"]
+    func = hd.resolve(name)
+    sname = hd.short(name)
+    viol: List[dict] = []
+    counters = {"initpv_calls": 0}
+    outs = set()
+    variants = [("parsed", m) for m in PV_MESSAGES] + [("constructed", None)]
+    for code in cfg["codes"]:
+        for mode, text in variants:
+            err: Dict[str, Any] = {"code": code}
+            if text is not None:
+                err["message"] = text
+            try:
+                hd.incoming({"jsonrpc": "2.0", "id": "probe", "error": err}, mode)
+            except Exception:  # noqa: BLE001
+                counters["initpv_unrepresentable"] = counters.get("initpv_unrepresentable", 0) + 1
+                continue
+            kw = hd.build_kwargs(func, hd.Profile())
+
+            def script(req, n, err=err, mode=mode):
+                return [hd.incoming({"jsonrpc": "2.0", "id": req["id"], "error": err}, mode)]
+
+            o = hd.drive(func, kw, script, timeout=2.0)
+            if o["status"] == "ok" and o["requests"] < 1:
+                raise core.HarnessError(f"helper {name} finished without writing a request")
+            counters["initpv_calls"] += 1
+            ctx = (f"helper={sname} code={code} message={text!r} incoming={mode}"
+                   + ("" if text is not None else " (no message: the library's default text for the code is used)"))
+            if code == -32602 and text is not None:
+                cls = hd.exc_info(o["exc"])["cls"] if o.get("outcome") == "raised" else str(o.get("outcome"))
+                counters["recorded:documented-translation(-32602 + protocol version text):" + cls] = \
+                    counters.get("recorded:documented-translation(-32602 + protocol version text):" + cls, 0) + 1
+                outs.add("documented-translation")
+                continue
+            outs.add(_judge_raise(o, code, (0, 0), sname, viol, ctx, msg_text=text))
+    return {"outcome": "initpv:" + "+".join(sorted(outs)), "violations": viol[:12], "counters": counters,
+            "helper": sname, "n_codes": len(cfg["codes"])}
+
+
 def _run_record(cfg) -> Dict[str, Any]:
     """Recorded, not judged: send_initialize documents a third exception (VersionMismatchError)
     for an INVALID_PARAMS error whose message mentions the protocol version."""
@@ -342,6 +390,8 @@ def run_one(ctl: explorer.Ctl, cfg: Dict[str, Any]) -> Dict[str, Any]:
         return _run_helper(cfg)
     if part == "baseline":
         return _run_baseline(cfg)
+    if part == "initpv":
+        return _run_initpv(cfg)
     if part == "record":
         return _run_record(cfg)
     raise core.HarnessError(f"unknown part {part}")
@@ -431,6 +481,14 @@ def run(tier: str, only=None) -> core.Result:
                     cfgs.append({"part": "helper", "helper": h["name"], "rich": False, "arm": 0, "codes": block})
     out = explorer.explore(RUN, cfgs)
     sched.absorb(res, "iii-helpers-error-answer", RUN, out, cfgs)
+    # initialize helpers: texts that mention the protocol version, every code of the grid
+    init_helpers = [h for h in req_helpers if "initialize" in hd.short(h["name"])]
+    if init_helpers:
+        pv_cfgs = [{"part": "initpv", "helper": h["name"], "codes": block}
+                   for h in init_helpers for block in _chunks(sorted(set(codes) | {-32008, -32602}), 16)]
+        out_pv = explorer.explore(RUN, pv_cfgs)
+        sched.absorb(res, "iii-initialize-protocol-version-texts", RUN, out_pv, pv_cfgs)
+        samples += _pick("iii-initialize-protocol-version-texts", pv_cfgs, note=f"each code x {len(PV_MESSAGES)} texts + message-less")
     samples += _pick("iii-helpers-error-answer", cfgs, note=f"each code x {len(SHAPES)} shapes")
 
     # measured counts
@@ -440,7 +498,7 @@ def run(tier: str, only=None) -> core.Result:
             cnt[k] = cnt.get(k, 0) + v
     cov = res.coverage
     cov["samples"] = samples  # chosen by position in the enumeration, so identical from run to run
-    calls = cnt.get("sm_calls", 0) + cnt.get("helper_calls", 0) + cnt.get("baseline_calls", 0)
+    calls = cnt.get("sm_calls", 0) + cnt.get("helper_calls", 0) + cnt.get("baseline_calls", 0) + cnt.get("initpv_calls", 0)
     cov["evaluations"] = cnt.get("fn_evaluations", 0) + calls
     cov["driven_calls"] = calls
     cov["function_evaluations"] = cnt.get("fn_evaluations", 0)
@@ -462,6 +520,8 @@ def run(tier: str, only=None) -> core.Result:
         "{required only, all optionals, second Union arm} x "
         + ("boundary codes (named codes +-1, range edges, 0, +-1, +-200, 64-bit extremes)" if tier == "quick" else "every code of the grid")
         + " x shape; ping / resources_subscribe / resources_unsubscribe x every code of the grid in both tiers"
+        + "; the initialize helpers additionally x every code x 4 messages mentioning 'protocol version' (different casings) and a message-less "
+        "error through the constructor route (judged for every code but -32602)"
         + ".  str(e) may not name a code other than the one sent.  distinct_nontrivial = distinct observation digests of the blocks (a block = one code, or one helper x profile x <=8 codes); "
         "shapes the chosen route rejects are counted as unrepresentable and skipped"
     )
@@ -470,7 +530,7 @@ def run(tier: str, only=None) -> core.Result:
         "error objects without 'message' are not accepted by parse_message; they reach send_message only through the unified JSONRPCMessage constructor",
         "error codes are JSON integers; bool / float / string codes are outside the quantifier",
         "send_initialize documents a third exception: a -32602 error whose message mentions 'protocol version' is translated to "
-        "VersionMismatchError (recorded under recorded_not_judged, messages of the alphabet do not contain that phrase)",
+        "VersionMismatchError (recorded under recorded_not_judged); for every other code such a text must still give the classified exception",
         "a helper annotated '-> bool' other than ping/subscribe/unsubscribe may either return False or raise the classified error",
         "the 64-bit part of the quantifier is replaced by the deterministic extremes +-2^31, +-2^63 (+-1) and 2^64-1",
     ]
